@@ -12,15 +12,16 @@
 (*  - Eq is an equivalence relation, insensitive to labels, capacity and   *)
 (*    map insertion order, and agrees at top level and as a field          *)
 (*  - every single mutation is distinguished by Eq                         *)
-(*  - the implementation-shaped Compare satisfies the order laws, is 0     *)
-(*    iff the implementation-shaped Equal holds, and has the natural       *)
-(*    direction on single mutations                                        *)
+(*  - the implementation-shaped Compare satisfies the order laws and has   *)
+(*    the natural direction on single mutations                            *)
 (*  - the implementation-shaped Hash depends only on the value             *)
 (*    (Identical => same hash)                                             *)
 (* LEADS (implementation-shaped layer vs abstract layer; printed, never a  *)
 (* verdict -- the conformance run on real code confirms or refutes them):  *)
 (*  - EqImpl # Eq;  Eq but HashImpl differs;  EqImpl but HashImpl differs; *)
-(*    CmpImpl = 0 but not Eq                                               *)
+(*    CmpImpl = 0 but not Eq;  CmpImpl = 0 differs from EqImpl (found by   *)
+(*    TLC on struct{A *[]byte}: bytes.Equal through a pointer in Equal,    *)
+(*    nil-first helper in Compare -- confirmed on the real code)           *)
 (***************************************************************************)
 EXTENDS DeriveSem, Json, IOUtils
 
@@ -137,7 +138,6 @@ CmpImplLaws == Pair =>
   /\ C(i, j) \in {-1, 0, 1}
   /\ C(i, j) = 0 - C(j, i)
   /\ \A k \in N : (C(i, j) <= 0 /\ C(j, k) <= 0) => C(i, k) <= 0
-  /\ (C(i, j) = 0) <=> EI(i, j)
   /\ (P[j].of = i /\ P[j].dir # "none" /\ ~EI(i, j)) => (C(i, j) = DirSign(P[j].dir) /\ C(j, i) = 0 - DirSign(P[j].dir))
 
 EqImplEquivalence == Pair =>
@@ -152,7 +152,8 @@ LeadKinds ==
   (IF \E a, b \in N : EI(a, b) # E(a, b) THEN " EqImpl#Eq" ELSE "") \o
   (IF \E a, b \in N : E(a, b) /\ H(a) # H(b) THEN " Eq-but-HashImpl-differs" ELSE "") \o
   (IF \E a, b \in N : EI(a, b) /\ ~E(a, b) /\ H(a) # H(b) THEN " EqImpl-not-Eq-and-HashImpl-differs" ELSE "") \o
-  (IF \E a, b \in N : (C(a, b) = 0) # E(a, b) THEN " CmpImpl0#Eq" ELSE "")
+  (IF \E a, b \in N : (C(a, b) = 0) # E(a, b) THEN " CmpImpl0#Eq" ELSE "") \o
+  (IF \E a, b \in N : (C(a, b) = 0) # EI(a, b) THEN " CmpImpl0#EqImpl" ELSE "")
 
 Leads == First => (LeadKinds = "" \/ PrintT("LEAD " \o Cases[ti].id \o LeadKinds))
 =============================================================================
